@@ -39,13 +39,17 @@ CLAIMED = {
          "go/ssa model; list encoding convention of getTimeoutList (first element empty = no list) read from the code",
          "DESIGN.md section 5 C06"),
  "C14": ("credit/debit pairing over SSA values (lifted through parameters to call sites), dominance of sufficiency comparisons, stale-read (alias) ordering rule",
-         "Decides clauses R14.1-R14.5: every balance credit of native execution credits an amount debited earlier on every path (same value or its quotient), parameters lifted to all call sites, with named exceptions (admin grant, genesis); every debit lies behind a balance>=amount comparison; when debit and credit accounts may alias the credit's balance read follows the debit; the fee share is fees/len(admins) credited per element of that list; the admin grant is paid only behind event==register and result==approve. Not sums over histories; EVM transfers excluded.",
+         "Decides clauses R14.1-R14.6: every balance credit of native execution credits an amount debited earlier on every path (same value or its quotient), parameters lifted to all call sites, with named exceptions (admin grant, genesis); every debit lies behind a balance>=amount comparison; when debit and credit accounts may alias the credit's balance read follows the debit; the fee share is fees/len(admins) credited per element of that list; the admin grant is paid only behind event==register and result==approve; the balance writes of a transfer lie behind amount.Sign() >= 0. Not sums over histories; EVM transfers excluded.",
          "go/ssa model; math/big semantics trusted",
          "DESIGN.md section 5 C14"),
  "C16": ("SSA guard rules on the availability gates, FSM/pre-check table extraction (repository and pinned bitxhub-core), cascade must-pass-through, cache-coherence and stale-write-back rules",
          "Decides clauses R16.1-R16.6: a local-source request is accepted only after checkSourceAvailability, a local destination only across exists/IsAvailable/CheckPermission, the target error becomes the begin-failed flag; in all governance FSM tables an approved logout ends in forbidden and nothing leads from forbidden to a usable status; an approved freeze/activate/logout of an appchain passes the matching cross-invoke with its result tested and the per-service operations run inside the loop; the service cache is fed only from successful receipts, reset on rollback, and every status-changing service entry posts the SERVICE event; no record loaded before a status change is written back after it. Not composed behaviour over histories.",
          "go/ssa + go/ast; bitxhub-core tables are read from the pinned module source; looplab/fsm trusted",
          "DESIGN.md section 5 C16"),
+ "C08": ("recover-dominance rule on the VM / validator entry points, bare-goroutine rule, who-may-call rule for contract dispatch, nil / sign guard-edge rules on the executor's unrecovered path, loop-shape and return-origin rules for receipts, producer/decoder type agreement for events, frozen classification of explicit panics, revert-once path rule",
+         "Decides clauses R08.1-R08.8: BoltVM.Run / HandleIBTP, WasmVM.Run and VerifyPool.CheckProof install a recover before anything that may panic and turn the panic into their error; goroutines of verifySign / verifyProofs recover themselves or call only recovering entries; the executor reaches contracts only through those entries (one frozen, argued exception); a transaction without sender gets a FAILED receipt before any ledger call, transfer tests addresses and sign; exactly one non-nil receipt per transaction in block order, and those are persisted; every event type decoded with a panic is posted with the decoder's type; every explicit panic of the unrecovered region is classified; no snapshot id is reverted twice. Implicit panics in dependencies / ledger code on well-formed arguments, blocking, resource exhaustion and guest termination are not decided.",
+         "go/ssa model; wasmtime fuel, EVM gas trusted",
+         "DESIGN.md section 5 C08"),
  "C09": ("key-prefix table agreement (written / deleted / read) over CHA-reachable storage calls, hash-last and parent-link ordering rules, normalised height expressions",
          "Decides clauses R09.1-R09.5: every index key prefix written per block is deleted (or rewritten) on rollback and every prefix read is written; every header field covered by BlockHeader.Hash (field set read from the pinned model source) is assigned before BlockHash = Hash() of the same block; ParentHash comes from currentBlockHash, which is advanced only after persisting, at construction, and in rollbackBlocks from the block at the rollback target; roots are computed over the executed transaction slice and the stored receipt slice, receipts frozen afterwards; persist and rollback count interchain txs the same way. Not blockfile internals.",
          "go/ssa + CHA restricted to module types; bitxhub-kit storage/blockfile trusted",
